@@ -8,6 +8,7 @@ import (
 	common2 "github.com/elastos/Elastos.ELA/core/types/common"
 	"github.com/elastos/Elastos.ELA/core/types/interfaces"
 	"github.com/elastos/Elastos.ELA/core/types/outputpayload"
+	"github.com/elastos/Elastos.ELA/core/types/payload"
 	"github.com/elastos/Elastos.ELA/cr/state"
 
 	"verifharness/crkit"
@@ -23,7 +24,7 @@ func cells(e *crkit.Env) string {
 		if c != nil {
 			v, s, ch = int64(c.Votes), int64(c.State), int64(c.CancelHeight)
 		}
-		xs = append(xs, fmt.Sprintf("(%d, %s)", 10*i+1, lib.CoqZi(v)), fmt.Sprintf("(%d, %d)", 10*i+2, s), fmt.Sprintf("(%d, %d)", 10*i+3, ch))
+		xs = append(xs, fmt.Sprintf("(%d, %s)", 64*i+1, lib.CoqZi(v)), fmt.Sprintf("(%d, %d)", 64*i+2, s), fmt.Sprintf("(%d, %d)", 64*i+3, ch))
 	}
 	return "[" + strings.Join(xs, "; ") + "]"
 }
@@ -132,4 +133,196 @@ func emitModelCases(sh *lib.Shards, st *lib.Stats, run *lib.Run, id *int, w0 *wo
 	sh.Add(fmt.Sprintf("CHist %d %s [%s] [%s]", *id, s0, strings.Join(coqBlocks, ";\n   "), strings.Join(rbs, ";\n   ")))
 	st.LogCase(run.Out, *id, map[string]interface{}{"kind": "model-history", "blocks": coqBlocks})
 	st.Hist["model-histories"]++
+	emitProposalModelCase(sh, st, run, id, w0.v, rng)
+}
+
+// ---- second model history: one proposal on a seated council; tracking of every
+// kind, withdrawals (also in the same block as a tracking), impeachment votes.
+
+func cellOf(cls, idx int) int { return 64*idx + cls }
+
+func pcells(e *crkit.Env, hash common.Uint256, nst int, ms []*crkit.Key) string {
+	c := e.Committee
+	xs := []string{fmt.Sprintf("(%d, %s)", cellOf(5, 0), lib.CoqZi(int64(c.CRCCommitteeUsedAmount)))}
+	if s := c.GetProposal(hash); s != nil {
+		fin := 0
+		if s.FinalPaymentStatus {
+			fin = 1
+		}
+		xs = append(xs, fmt.Sprintf("(%d, %d)", cellOf(7, 1), s.Status), fmt.Sprintf("(%d, %d)", cellOf(6, 1), s.TrackingCount),
+			fmt.Sprintf("(%d, %d)", cellOf(8, 1), fin), fmt.Sprintf("(%d, %d)", cellOf(9, 1), s.TerminatedHeight))
+		for st := 0; st < nst; st++ {
+			idx := 256 + st
+			wa, wn := int64(0), int64(0)
+			if a, ok := s.WithdrawableBudgets[uint8(st)]; ok {
+				wa = int64(a) + 1
+			}
+			if a, ok := s.WithdrawnBudgets[uint8(st)]; ok {
+				wn = int64(a) + 1
+			}
+			xs = append(xs, fmt.Sprintf("(%d, %d)", cellOf(10, idx), s.BudgetsStatus[uint8(st)]),
+				fmt.Sprintf("(%d, %d)", cellOf(11, idx), wa), fmt.Sprintf("(%d, %d)", cellOf(12, idx), wn))
+		}
+	}
+	for i, k := range ms {
+		if m := c.GetMember(k.DID); m != nil {
+			xs = append(xs, fmt.Sprintf("(%d, %s)", cellOf(15, i), lib.CoqZi(int64(m.ImpeachmentVotes))))
+		}
+	}
+	return "[" + strings.Join(xs, "; ") + "]"
+}
+
+func emitProposalModelCase(sh *lib.Shards, st *lib.Stats, run *lib.Run, id *int, v variant, rng *lib.Rng) {
+	const base = 1000
+	ms := cands[:3]
+	mkEnv := func() *crkit.Env {
+		p := newParams(v)
+		p.CRConfiguration.DutyPeriod = 1000000
+		p.CRConfiguration.VotingPeriod = 100
+		p.CRConfiguration.CRClaimDPOSNodeStartHeight = 100000000
+		p.DPoSV2StartHeight = 200000000
+		e := crkit.NewEnv(p)
+		cm := e.Committee
+		for i, k := range ms {
+			cm.Members[k.DID] = &state.CRMember{Info: payload.CRInfo{Code: k.Code, CID: k.CID, DID: k.DID, NickName: fmt.Sprintf("s%d", i)},
+				MemberState: state.MemberElected, DepositHash: k.Deposit, ActivateRequestHeight: ^uint32(0)}
+			cm.GetState().DepositInfo[k.CID] = &state.DepositInfo{DepositAmount: state.MinDepositAmount, TotalAmount: state.MinDepositAmount}
+		}
+		cm.InElectionPeriod = true
+		cm.LastCommitteeHeight = 20
+		cm.GetState().CurrentSession = 1
+		cm.CRCCurrentStageAmount = common.Fixed64(100000 * ela)
+		cm.CRCCommitteeUsedAmount = common.Fixed64(1000 * ela)
+		cm.CirculationAmount = common.Fixed64(3300 * 10000 * ela)
+		e.Height = base
+		return e
+	}
+	e := mkEnv()
+	nst := rng.Range(3, 5)
+	var bs []payload.Budget
+	amts := make([]int64, nst)
+	for s := 0; s < nst; s++ {
+		ty := payload.NormalPayment
+		if s == 0 {
+			ty = payload.Imprest
+		}
+		if s == nst-1 {
+			ty = payload.FinalPayment
+		}
+		amts[s] = int64(rng.Intn(9)+1) * ela
+		bs = append(bs, payload.Budget{Type: ty, Stage: byte(s), Amount: common.Fixed64(amts[s])})
+	}
+	owner := owners[0]
+	ptx, hash := crkit.Proposal(owner, ms[0], owner.Addr, bs, []byte(fmt.Sprintf("mdraft%d", nn())), nn())
+	var real [][]interfaces.Transaction
+	h := uint32(base)
+	feedOne := func(en *crkit.Env, hh uint32, txs []interfaces.Transaction) { en.Process(hh, txs) }
+	push := func(txs ...interfaces.Transaction) {
+		h++
+		all := append([]interfaces.Transaction{crkit.Coinbase(nn(), nil)}, txs...)
+		real = append(real, all)
+		feedOne(e, h, all)
+	}
+	push(ptx)
+	push(crkit.Review(ms[0], hash, payload.Approve, nn()), crkit.Review(ms[1], hash, payload.Approve, nn()))
+	for i := 0; i < 12; i++ {
+		if s := e.Committee.GetProposal(hash); s != nil && s.Status == state.VoterAgreed {
+			break
+		}
+		push()
+	}
+	if s := e.Committee.GetProposal(hash); s == nil || s.Status != state.VoterAgreed {
+		return
+	}
+	hS := h
+	s0 := pcells(e, hash, nst, ms)
+	stages := make([]string, nst)
+	for i := range stages {
+		stages[i] = fmt.Sprint(i)
+	}
+	stageList := "[" + strings.Join(stages, "; ") + "]"
+	var coqBlocks []string
+	nb := rng.Range(3, 9)
+	for b := 0; b < nb; b++ {
+		ps := e.Committee.GetProposal(hash)
+		var txs []interfaces.Transaction
+		var terms []string
+		if rng.Chance(50) { // withdraw
+			amt := e.Committee.AvailableWithdrawalAmount(hash)
+			in := &common2.Input{Previous: common2.OutPoint{TxID: common.Hash([]byte(fmt.Sprintf("mu%d", nn())))}}
+			var tx interfaces.Transaction
+			var refs map[*common2.Input]common2.Output
+			tid := 0
+			if v.V1 {
+				tx = crkit.WithdrawV1(owner, hash, ps.Recipient, amt, []*common2.Input{in}, nn())
+				refs = map[*common2.Input]common2.Output{in: {Value: 10000, ProgramHash: owner.Addr}}
+				tid = int(nn())
+			} else {
+				tx = crkit.WithdrawV0(owner, hash, ps.Recipient, *e.Params.CRConfiguration.CRExpensesProgramHash, []*common2.Input{in}, amt-10000, 5, nn())
+				refs = map[*common2.Input]common2.Output{in: {Value: amt + 5, ProgramHash: *e.Params.CRConfiguration.CRExpensesProgramHash}}
+			}
+			if ok, _, _ := e.Check(tx, h+1, 0, refs); ok {
+				txs = append(txs, tx)
+				terms = append(terms, fmt.Sprintf("TxWithdraw 1 %s %d", stageList, tid))
+			}
+		}
+		if rng.Chance(70) { // tracking
+			ty := payload.CRCProposalTrackingType(rng.PickI64(0, 1, 1, 1, 2, 2, 3, 5))
+			stg := rng.Intn(nst)
+			switch ty {
+			case payload.Common, payload.Terminated:
+				stg = 0
+			case payload.Finalized:
+				stg = nst - 1
+			}
+			tx := crkit.Tracking(ty, hash, uint8(stg), owner, nil, sg, nn())
+			if ok, _, _ := e.Check(tx, h+1, 0, nil); ok {
+				release := int64(0)
+				for s2 := 0; s2 < nst; s2++ {
+					if _, w := ps.WithdrawableBudgets[uint8(s2)]; !w {
+						if ty == payload.Terminated || (ty == payload.Finalized && s2 != nst-1) {
+							release += amts[s2]
+						}
+					}
+				}
+				amt := amts[stg]
+				txs = append(txs, tx)
+				// whether the progress closure raises FinalPaymentStatus is decided when it executes
+				// (after the withdrawals of the block): evaluated below, after the block
+				terms = append(terms, fmt.Sprintf("TxTrack 1 %d %d %d %d SETFINAL %s %s", ty, stg, amt, nst-1, stageList, lib.CoqZi(release)))
+			}
+		}
+		if rng.Chance(30) {
+			mi := rng.Intn(3)
+			vv := int64(rng.Intn(1000)+1) * 1000
+			tx := crkit.VoteOutputTx(nn(), common.Fixed64(ela), []outputpayload.VoteContent{{VoteType: outputpayload.CRCImpeachment,
+				CandidateVotes: []outputpayload.CandidateVotes{{Candidate: ms[mi].CID.Bytes(), Votes: common.Fixed64(vv)}}}}, nil, nil)
+			txs = append(txs, tx)
+			terms = append(terms, fmt.Sprintf("TxImpeachVote %d %d", mi, vv))
+		}
+		wasFinal := ps.FinalPaymentStatus
+		push(txs...)
+		setfinal := "false"
+		if e.Committee.GetProposal(hash).FinalPaymentStatus && !wasFinal {
+			setfinal = "true"
+		}
+		for i := range terms {
+			terms[i] = strings.Replace(terms[i], "SETFINAL", setfinal, 1)
+		}
+		coqBlocks = append(coqBlocks, fmt.Sprintf("((%d, [%s]), %s)", h, strings.Join(terms, "; "), pcells(e, hash, nst, ms)))
+	}
+	var rbs []string
+	for k := hS; k < h; k++ {
+		r := mkEnv()
+		for i, txs := range real {
+			feedOne(r, uint32(base+1+i), txs)
+		}
+		r.Height = k
+		r.Committee.RollbackTo(k)
+		rbs = append(rbs, fmt.Sprintf("(%d, %s)", k, pcells(r, hash, nst, ms)))
+	}
+	*id++
+	sh.Add(fmt.Sprintf("CHist %d %s [%s] [%s]", *id, s0, strings.Join(coqBlocks, ";\n   "), strings.Join(rbs, ";\n   ")))
+	st.LogCase(run.Out, *id, map[string]interface{}{"kind": "model-proposal-history", "blocks": coqBlocks})
+	st.Hist["model-proposal-histories"]++
 }
